@@ -494,6 +494,10 @@ func (oc *objectCache) get(obj types.Object) (val interface{}, errs []error) {
 				break
 			}
 		}
+		if i >= len(spec.Values) {
+			// var a, b = f(): there is no expression for a single name.
+			return nil, []error{fmt.Errorf("%v is not a provider or a provider set", obj)}
+		}
 		pkgPath := obj.Pkg().Path()
 		return oc.processExpr(oc.packages[pkgPath].TypesInfo, pkgPath, spec.Values[i], obj.Name())
 	case *types.Func:
